@@ -72,7 +72,7 @@ func (c *Cluster) byzForgeStep(s *Step) {
 	alreadyThere := preErr == nil
 	var err error
 	wire := s.B == 1
-	c.hostile = true
+	c.hostile, c.hostileSeen = true, true
 	if wire {
 		we, ok := c.toWireFor(victim, f.ev)
 		if !ok {
@@ -282,7 +282,7 @@ func (c *Cluster) byzRPCStep(s *Step) {
 		}
 	}
 	_ = blocksBefore
-	c.hostile = true
+	c.hostile, c.hostileSeen = true, true
 	switch kind {
 	case "sync":
 		req := &net.SyncRequest{FromID: byz.id, Known: c.hostileKnown(r, victim), SyncLimit: hostileInt(r)}
@@ -300,20 +300,32 @@ func (c *Cluster) byzRPCStep(s *Step) {
 			Body:      hg.InternalTransactionBody{Type: hg.TransactionType(r.Intn(3)), Peer: peers.Peer{PubKeyHex: hostileKey(r, byz.pubHex), NetAddr: "zz", Moniker: "evil"}},
 			Signature: hostileSig(r),
 		}
+		copies := 1
+		if r.Bool(0.4) {
+			// a well-formed request, correctly signed by an outsider with its own key,
+			// possibly sent several times over (retries, several connections)
+			sk := deriveKey(c.seed, 300+r.Intn(6))
+			itx = hg.NewInternalTransactionJoin(*newPeerFromKey(sk))
+			itx.Sign(sk)
+			copies = 1 + r.Intn(6)
+			c.stats.probe("c08-valid-join-request-copies")
+		}
 		req := &net.JoinRequest{InternalTransaction: itx}
-		// a join request can block (promise); run it as a task under its own recover
-		t := &task{id: len(c.tasks), kind: "hostile-join", n: victim, via: nil}
-		c.tasks = append(c.tasks, t)
-		go func() {
-			defer func() {
-				if rec := recover(); rec != nil {
-					c.violate("C08", "no-panic", "panic@"+topFrame(), "panic while processing a hostile JoinRequest (peer key %q, signature %q): %v at %s", clipS(itx.Body.Peer.PubKeyHex, 40), clipS(itx.Signature, 40), rec, topFrame())
-				}
-				t.done = true
+		for k := 0; k < copies; k++ {
+			// a join request can block (promise); run it as a task under its own recover
+			t := &task{id: len(c.tasks), kind: "hostile-join", n: victim, via: nil}
+			c.tasks = append(c.tasks, t)
+			go func() {
+				defer func() {
+					if rec := recover(); rec != nil {
+						c.violate("C08", "no-panic", "panic@"+topFrame(), "panic while processing a hostile JoinRequest (peer key %q, signature %q): %v at %s", clipS(itx.Body.Peer.PubKeyHex, 40), clipS(itx.Signature, 40), rec, topFrame())
+					}
+					t.done = true
+				}()
+				c.net.deliver(victim, "join", req, &net.JoinResponse{})
 			}()
-			c.net.deliver(victim, "join", req, &net.JoinResponse{})
-		}()
-		synctest.Wait()
+			synctest.Wait()
+		}
 	case "syncresp":
 		if victim.state() != _state.Babbling {
 			return
@@ -650,7 +662,7 @@ func (c *Cluster) byzSigStep(s *Step) {
 	ev := newEvent(byz, spIdx+1, sp, other, nil, nil, sigs, int64(946684800+c.stepNo))
 	signEvent(ev, byz)
 	c.stats.probe("c09-hostile-signatures:" + op)
-	c.hostile = true
+	c.hostile, c.hostileSeen = true, true
 	if s.B == 1 {
 		if we, ok := c.toWireFor(victim, ev); ok {
 			c.net.deliver(victim, "eager", &net.EagerSyncRequest{FromID: byz.id, Events: []hg.WireEvent{we}}, &net.EagerSyncResponse{})
